@@ -201,6 +201,11 @@ func (r *ReaderStream) Read(p []byte) (int, error) {
 // io.ReadCloser.  It discards all remaining bytes in the reassembly in a
 // manner that's safe for the assembler (IE: it doesn't block).
 func (r *ReaderStream) Close() error {
+	if !r.first && !r.closed {
+		// Read has taken a batch from Reassembled that it has not acknowledged
+		// yet: the assembler is waiting on r.done, so release it before draining.
+		r.done <- true
+	}
 	r.current = nil
 	r.closed = true
 	for {
